@@ -19,6 +19,27 @@ def _outcome(f):
         return ('raise', type(e).__name__, str(e)[:200])
 
 
+class _Times10:
+    pass
+
+
+def _mk_times10():
+    from pane.converters import Converter
+    from pane.errors import ParseInterrupt
+    class Times10(Converter):
+        def expected(self, plural=False):
+            return 'x10'
+        def try_convert(self, val):
+            if type(val) is int:
+                return val * 2
+            raise ParseInterrupt()
+        def collect_errors(self, val):
+            return None
+        def into_data(self, val):
+            return val * 10
+    return Times10()
+
+
 def D1():
     import pane
     a = _outcome(lambda: pane.from_data(5, bool))
@@ -263,6 +284,41 @@ def D23():
     b = _outcome(lambda: pane.into_data(Color.RED, t.Union[int, Color]))
     holds = a == ('ok', Color.RED) and b == ('ok', 'red') and type(b[1]) is str
     return holds, f"class Color(str, Enum): convert(Color.RED, Color) -> {a!r}; into_data(Color.RED, Union[int, Color]) -> {b!r}"
+
+
+def D27():
+    import pane
+    T = t.TypeVar('T')
+    class G(pane.PaneBase, t.Generic[T]):
+        x: T
+    a = _outcome(lambda: G[t.Union[float, int]].from_data({'x': 3}).x)
+    b = _outcome(lambda: G[t.Union[int, float]].from_data({'x': 3}).x)
+    holds = a[0] == 'ok' and b[0] == 'ok' and type(a[1]) is float and type(b[1]) is int
+    return holds, f"G[Union[float, int]].from_data({{'x': 3}}).x -> {a[1]!r}; then G[Union[int, float]].from_data({{'x': 3}}).x -> {b[1]!r}"
+
+
+def D28():
+    import pane
+    C = {int: _mk_times10()}
+    r = [_outcome(lambda: pane.into_data([3], custom=C)), _outcome(lambda: pane.into_data((3, [3]), custom=C)),
+         _outcome(lambda: pane.into_data({'a': [3]}, custom=C)), _outcome(lambda: pane.into_data([3], t.List[t.Any], custom=C))]
+    holds = [x[:2] for x in r] == [('ok', [30]), ('ok', (30, [30])), ('ok', {'a': [30]}), ('ok', [30])]
+    return holds, f"into_data with custom={{int: x10}} of [3], (3, [3]), {{'a': [3]}}, [3] as List[Any]: {[x[1] for x in r]!r}"
+
+
+def N8():
+    import pane
+    from pane.annotations import Tagged
+    class A(pane.PaneBase):
+        kind: t.Literal['a'] = 'a'
+        x: int = 0
+    class B(pane.PaneBase):
+        kind: t.Literal['b'] = 'b'
+    T = t.Optional[t.Annotated[t.Union[A, B], Tagged('kind', True)]]
+    d = _outcome(lambda: pane.into_data(A(x=1), T))
+    back = _outcome(lambda: pane.from_data(d[1], T)) if d[0] == 'ok' else ('skip',)
+    holds = d[0] == 'ok' and back[0] == 'ok'
+    return holds, f"Optional[externally tagged union]: into_data(A(x=1)) -> {d[:2]!r}; from_data(that) -> {back[:2]!r}"
 
 
 def D26():
